@@ -475,6 +475,11 @@ def unique_filter(ctx, rule):
             first = U(n.targets[0].elts[1])
         if isinstance(n, ast.Assign) and isinstance(n.value, ast.Subscript) and n.value.value is uq[0] and U(n.value.slice) == "1":
             first = U(n.targets[0])
+    if first is None:
+        # the index result used where it is needed, without a name: np.unique(..)[1]
+        direct = [x for x in ast.walk(f.node) if isinstance(x, ast.Subscript) and x.value is uq[0] and U(x.slice) == "1"]
+        if len(direct) == 1:
+            first = U(inline(direct[0], env))
     r = returns(f.node)
     ok2 = False
     if first and len(r) == 1:
@@ -487,7 +492,8 @@ def unique_filter(ctx, rule):
                 and U(st[0].targets[0].slice) == first and isinstance(st[0].value, ast.Constant) and st[0].value.value is True
         else:
             e = inline(res, {k: v for k, v in env.items() if k != first})
-            ok2 = U(e).replace(" ", "") in (f"np.isin(np.arange(len({arrs}[0])),{first})", f"np.in1d(np.arange(len({arrs}[0])),{first})")
+            ft = first.replace(" ", "")
+            ok2 = U(e).replace(" ", "") in (f"np.isin(np.arange(len({arrs}[0])),{ft})", f"np.in1d(np.arange(len({arrs}[0])),{ft})")
     ctx.check(rule, f"{f.site()}::first-occurrences", ok and ok2, "row-wise np.unique(axis=0, return_index) marks exactly the first occurrences",
               "the mask returned is not `True exactly at the first-occurrence indices of the row-wise np.unique`")
 
